@@ -6,7 +6,7 @@
    recogniser written with UnknownNode.require_* calls (C03_dsl_recognisers_qualify). *)
 From Coq Require Import NArith ZArith List Bool String Permutation.
 Import ListNotations.
-From Y Require Import Prelude Node Tables NodeOps Types Recognize Loader Hooks Spec WellTagged Polymorph RegOrder.
+From Y Require Import Prelude Node Tables NodeOps Types Recognize Loader Hooks Spec WellTagged Polymorph RegOrder UnionOrder.
 Open Scope N_scope.
 
 (* Exactly one recognised type, or the load fails with RecognitionError: no guessing. *)
@@ -63,6 +63,11 @@ Theorem C03_union_order : forall rec ts ts' m tys e, Permutation ts ts' -> rec_u
   exists tys' e', rec_union rec ts' m = Ok (tys', e') /\ (forall t, In t tys <-> In t tys') /\ (forall t, tys = [t] -> tys' = [t]).
 Proof. exact rec_union_perm. Qed.
 Print Assumptions C03_union_order.
+(* ... hence for the whole load: a declared Union type may list its members in any order *)
+Theorem C03_union_order_load : forall o reg doc ts ts' v, Permutation ts ts' ->
+  (load o reg doc (TUnion ts) = Ok v <-> load o reg doc (TUnion ts') = Ok v).
+Proof. exact UnionOrder.load_union_perm. Qed.
+Print Assumptions C03_union_order_load.
 
 (* The order in which the classes were registered is irrelevant: two registries that are permutations of each other
    load the same documents to the same values (and fail on the same documents). *)
